@@ -1180,14 +1180,33 @@ token * mmd_tokenize_string(mmd_engine * e, size_t start, size_t len, bool stop_
 }
 
 
+#ifdef MMD6_VERIF
+/// Verification hook: when set, each (possibly nested) block parse is bracketed in this stream
+FILE * verif_parse_trace = NULL;
+#endif
+
 /// Parse token tree
 void mmd_parse_token_chain(mmd_engine * e, token * chain) {
 
 	if (e->recurse_depth == kMaxParseRecursiveDepth) {
+#ifdef MMD6_VERIF
+
+		if (verif_parse_trace) {
+			fprintf(verif_parse_trace, "VERIF-SKIP depth=%d\n", e->recurse_depth);
+		}
+
+#endif
 		return;
 	}
 
 	e->recurse_depth++;
+#ifdef MMD6_VERIF
+
+	if (verif_parse_trace) {
+		fprintf(verif_parse_trace, "VERIF-BEGIN depth=%d\n", e->recurse_depth);
+	}
+
+#endif
 
 	void * pParser = ParseAlloc (malloc);		// Create a parser (for lemon)
 	token * walker = chain->child;				// Walk the existing tree
@@ -1224,6 +1243,13 @@ void mmd_parse_token_chain(mmd_engine * e, token * chain) {
 	e->root = NULL;
 
 	ParseFree(pParser, free);
+#ifdef MMD6_VERIF
+
+	if (verif_parse_trace) {
+		fprintf(verif_parse_trace, "VERIF-END depth=%d\n", e->recurse_depth);
+	}
+
+#endif
 
 	e->recurse_depth--;
 }
